@@ -277,8 +277,18 @@ func checkC34(c *Ctx) (string, []string) {
 		"RefinementCount": {SR + ".n"}, "RefinementGasUsed": {SR + ".GasUsed"}, "Imports": {SR + ".Imports"}, "Exports": {SR + ".Exports"},
 		"ExtrinsicSize": {SR + ".ExtrinsicSize"}, "ExtrinsicCount": {SR + ".ExtrinsicCount"},
 		"AccumulateCount": {acc + "#0"}, "AccumulateGasUsed": {acc + "#1"},
-		"ProvidedCount": {"makemap[" + svc + "].count"}, "ProvidedSize": {"makemap[" + svc + "].size"},
 	})
+	// p: provided count / size per service — decided on the construction of the tally (c34Tally)
+	if f := fn["UpdateServiceActivityStatistics"]; f != nil {
+		vals := literalStoreValues(f, "types.ServiceActivityRecord")
+		for _, t := range []struct{ field, delta, doc string }{{"ProvidedCount", "1", "the number of preimages requested by the service"}, {"ProvidedSize", "len", "the total blob length of the preimages requested by the service"}} {
+			ok, why := false, "the field is not set"
+			if v := vals[t.field]; v != nil {
+				ok, why = c34Tally(f, v, svc, "p0.Preimages", t.delta)
+			}
+			c.Check(ok, "C34.core-service-sums", "internal/statistics.UpdateServiceActivityStatistics · record · "+t.field, f.Pos(), t.field+" ← "+t.doc+" (tally over every preimage, keyed by requester)", t.field+" is not "+t.doc+": "+why)
+		}
+	}
 	c.checkEffects("C34.core-service-sums", "internal/statistics.UpdateCoreActivityStatistics", fn["UpdateCoreActivityStatistics"],
 		effectShapes(fn["UpdateCoreActivityStatistics"], func(n string) bool { return strings.Contains(n, ").Set") }),
 		[]string{"call (*internal/blockchain.PosteriorStates).SetCoresStatistics(" + post + ", make([]internal/types.CoreActivityRecord, internal/types.CoresCount))"})
